@@ -231,7 +231,10 @@ pub struct CmpCtx {
     pub may_truncate: Vec<String>,
     /// histogram / range nodes at which (in lenient mode) only keys and counts are compared
     pub skip_subs_at: Vec<String>,
-    /// attribution mode only: an empty composite page is accepted (see the known finding
+    /// attribution mode only: metric nodes that are not compared (they carry the signature of
+    /// another known finding)
+    pub skip_metrics: Vec<String>,
+    /// attribution mode only: composite pages are not compared (see the known finding
     /// `C14:composite-lost-when-merged-into-empty-from-req`)
     pub lenient_empty_composite: bool,
     pub notes: Vec<String>,
@@ -264,6 +267,7 @@ fn cmp_buckets(n: &Node, real: &[(i64, u64, Vec<CR>)], exp: &[(i64, u64, Vec<SR>
 }
 
 fn cmp_one(n: &Node, real: &CR, exp: &SR, cx: &mut CmpCtx) -> Result<(), (String, String)> {
+    if cx.skip_metrics.contains(&n.name) { return Ok(()); }
     match (real, exp) {
         (CR::Hits(r), SR::Hits(e)) => if r == e { Ok(()) } else { Err(here(format!("top_hits {r:?} expected {e:?}"))) },
         (CR::Pct(r), SR::Metric { sorted, field, .. }) => cmp_pct(r, sorted, field.metric_factor()).map_err(here),
@@ -329,8 +333,8 @@ fn cmp_one(n: &Node, real: &CR, exp: &SR, cx: &mut CmpCtx) -> Result<(), (String
             let _ = numeric;
             r.map_err(here)
         }
-        (CR::Comp(r), SR::Comp { .. }) if r.is_empty() && cx.lenient_empty_composite => Ok(()),
-        (CR::Comp(r), SR::Comp { all, size }) => {
+        (CR::Comp(_), SR::Comp { .. }) if cx.lenient_empty_composite => Ok(()),
+        (CR::Comp(r), SR::Comp { all, size, .. }) => {
             let shown = &all[..(*size).min(all.len())];
             let ks = |l: &[(Vec<i64>, u64, Vec<CR>)]| l.iter().map(|b| (b.0.clone(), b.1)).collect::<Vec<_>>();
             let es: Vec<(Vec<i64>, u64)> = shown.iter().map(|b| (b.0.clone(), b.1)).collect();
@@ -471,6 +475,7 @@ fn same_buckets(a: &[(i64, u64, Vec<CR>)], b: &[(i64, u64, Vec<CR>)]) -> Result<
 pub fn empty_counts_lean(nodes: &[Node]) -> String {
     fn one(n: &Node) -> String {
         match &n.agg {
+            Agg::Metric { kind: MK::TopHits, .. } => "H[]".into(),
             Agg::Metric { .. } => "N".into(),
             Agg::Terms { .. } => "T[0,0;]".into(),
             Agg::Hist { .. } => "L[]".into(),
@@ -479,7 +484,7 @@ pub fn empty_counts_lean(nodes: &[Node]) -> String {
                 format!("L[{}]", (0..=k).map(|i| format!("{i}:0:{}", empty_counts_lean(&n.subs))).collect::<Vec<_>>().join(";"))
             }
             Agg::Filter { .. } => format!("F[0:{}]", empty_counts_lean(&n.subs)),
-            Agg::Composite { .. } => "N".into(),
+            Agg::Composite { .. } => "L[]".into(),
         }
     }
     match nodes.len() { 0 => "N".into(), 1 => one(&nodes[0]), _ => format!("({})({})", one(&nodes[0]), empty_counts_lean(&nodes[1..])) }
@@ -497,6 +502,11 @@ pub fn cr_counts_lean(nodes: &[Node], crs: &[CR], ranks: &Ranks) -> String {
             CR::List(b) if b.is_empty() && matches!(n.agg, Agg::Range { .. }) => empty_counts_lean(std::slice::from_ref(n)),
             CR::List(b) => format!("L[{}]", buckets(n, b, ranks)),
             CR::Filter(c, s) => format!("F[{c}:{}]", cr_counts_lean(&n.subs, s, ranks)),
+            CR::Comp(b) => {
+                let sources = match &n.agg { Agg::Composite { sources, .. } => sources.clone(), _ => vec![] };
+                format!("L[{}]", b.iter().map(|(k, c, s)| format!("{}:{c}:{}", ranks.comp_code(&n.name, &sources, k), cr_counts_lean(&n.subs, s, ranks))).collect::<Vec<_>>().join(";"))
+            }
+            CR::Hits(vs) => format!("H[{}]", vs.iter().map(|v| format!("{v}:{v}")).collect::<Vec<_>>().join(";")),
             _ => "N".into(),
         }
     }
